@@ -498,4 +498,251 @@ theorem lagrange_perm (xs xs' : List ℚ) (rows rows' : List (List ℚ)) (dim w 
   have hsort := sortBy_eq_of_perm _ _ hperm hdist
   simp only [lagrange, hl, hl', hlen, hsort, Bool.false_eq_true, ↓reduceIte]
 
+
+theorem insertBy_map {α β} (f : α → β) (a : ℚ × α) : ∀ l : List (ℚ × α),
+    insertBy (Prod.map id f a) (l.map (Prod.map id f)) = (insertBy a l).map (Prod.map id f)
+  | [] => by simp [insertBy]
+  | b :: l => by
+    simp only [List.map_cons, insertBy, Prod.map_fst, id_eq]
+    split
+    · simp
+    · simp [insertBy_map f a l]
+
+theorem sortBy_map {α β} (f : α → β) : ∀ l : List (ℚ × α),
+    sortBy (l.map (Prod.map id f)) = (sortBy l).map (Prod.map id f)
+  | [] => by simp [sortBy]
+  | a :: l => by
+    simp only [List.map_cons, sortBy, sortBy_map f l, insertBy_map]
+
+/-- sorting inspects abscissae only: the sorted samples of `xs.zip (R.map g)` are those of `xs.zip R`, mapped -/
+theorem sortedPairs_map {β} (g : β → List ℚ) (xs : List ℚ) (R : List β) (srt : Bool) :
+    sortedPairs xs (R.map g) srt =
+      ((if srt then xs.zip R else sortBy (xs.zip R)) : List (ℚ × β)).map (Prod.map id g) := by
+  unfold sortedPairs
+  have hz : xs.zip (R.map g) = (xs.zip R).map (Prod.map id g) := by
+    rw [List.zip_map_right]
+  cases srt
+  · simp only [Bool.false_eq_true, if_false, hz, sortBy_map]
+  · simp only [if_true, hz]
+
+abbrev Triple := List ℚ × List ℚ × List ℚ
+
+/-- three data sets over the same abscissae are sorted by one common permutation -/
+theorem sorted_triples (xs : List ℚ) (r₁ r₂ r₃ : List (List ℚ)) (srt : Bool)
+    (l₁ : r₁.length = xs.length) (l₂ : r₂.length = xs.length) (l₃ : r₃.length = xs.length) :
+    ∃ Z : List (ℚ × Triple), Z.length = xs.length ∧
+      sortedPairs xs r₁ srt = Z.map (Prod.map id (fun t => t.1)) ∧
+      sortedPairs xs r₂ srt = Z.map (Prod.map id (fun t => t.2.1)) ∧
+      sortedPairs xs r₃ srt = Z.map (Prod.map id (fun t => t.2.2)) ∧
+      ∀ i (hi : i < Z.length), ∃ t, t < xs.length ∧
+        r₁.getD t [] = (Z[i]).2.1 ∧ r₂.getD t [] = (Z[i]).2.2.1 ∧ r₃.getD t [] = (Z[i]).2.2.2 := by
+  let R : List Triple := r₁.zip (r₂.zip r₃)
+  have e₁ : r₁ = R.map (fun t => t.1) := by
+    simp only [R]; rw [List.map_fst_zip]; simp [List.length_zip]; omega
+  have e₂ : r₂ = R.map (fun t => t.2.1) := by
+    have : R.map (fun t => t.2.1) = (R.map (fun t => t.2)).map (fun u => u.1) := by simp [List.map_map]
+    rw [this]; simp only [R]
+    rw [List.map_snd_zip (by simp [List.length_zip]; omega), List.map_fst_zip (by omega)]
+  have e₃ : r₃ = R.map (fun t => t.2.2) := by
+    have : R.map (fun t => t.2.2) = (R.map (fun t => t.2)).map (fun u => u.2) := by simp [List.map_map]
+    rw [this]; simp only [R]
+    rw [List.map_snd_zip (by simp [List.length_zip]; omega), List.map_snd_zip (by omega)]
+  have hRlen : R.length = xs.length := by simp [R, List.length_zip]; omega
+  refine ⟨if srt then xs.zip R else sortBy (xs.zip R), ?_, ?_, ?_, ?_, ?_⟩
+  · have hp : (if srt then xs.zip R else sortBy (xs.zip R)).Perm (xs.zip R) := by
+      cases srt
+      · exact sortBy_perm _
+      · exact List.Perm.refl _
+    rw [hp.length_eq]; simp [List.length_zip, hRlen]
+  · conv_lhs => rw [e₁]
+    exact sortedPairs_map _ xs R srt
+  · conv_lhs => rw [e₂]
+    exact sortedPairs_map _ xs R srt
+  · conv_lhs => rw [e₃]
+    exact sortedPairs_map _ xs R srt
+  · intro i hi
+    have hp : (if srt then xs.zip R else sortBy (xs.zip R)).Perm (xs.zip R) := by
+      cases srt
+      · exact sortBy_perm _
+      · exact List.Perm.refl _
+    have hmem := hp.mem_iff.mp (List.getElem_mem hi)
+    obtain ⟨t, ht, hti⟩ := List.mem_iff_getElem.mp hmem
+    have ht' : t < xs.length := by simp [List.length_zip] at ht; omega
+    have htR : t < R.length := by omega
+    refine ⟨t, ht', ?_, ?_, ?_⟩
+    · rw [e₁, ← hti]; simp [List.getD_eq_getElem?_getD, htR]
+    · rw [e₂, ← hti]; simp [List.getD_eq_getElem?_getD, htR]
+    · rw [e₃, ← hti]; simp [List.getD_eq_getElem?_getD, htR]
+
+theorem fst_comp_map (g : Triple → List ℚ) :
+    ((fun x : ℚ × List ℚ => x.1) ∘ Prod.map id g) = (fun z : ℚ × Triple => z.1) := by
+  funext z; simp
+
+/-- **linear in the data**, whole call (sorted or unsorted input) -/
+theorem lagrange_linear (xs : List ℚ) (r₁ r₂ r₃ : List (List ℚ)) (dim w : ℕ) (be srt : Bool) (s : ℚ)
+    (xnew : List ℚ) (a b : ℚ) (o₁ o₂ o₃ : List (List ℚ))
+    (h₁ : lagrange xs r₁ dim w be srt s xnew = .ok o₁)
+    (h₂ : lagrange xs r₂ dim w be srt s xnew = .ok o₂)
+    (h₃ : lagrange xs r₃ dim w be srt s xnew = .ok o₃)
+    (c : ℕ) (hc : c < dim)
+    (hcomb : ∀ i, i < xs.length →
+      (r₃.getD i []).getD c 0 = a * (r₁.getD i []).getD c 0 + b * (r₂.getD i []).getD c 0)
+    (j : ℕ) (hj : j < xnew.length) :
+    (o₃.getD j []).getD c 0 = a * (o₁.getD j []).getD c 0 + b * (o₂.getD j []).getD c 0 := by
+  obtain ⟨l₁, _, hwn, _, rfl⟩ := lagrange_ok_form _ _ _ _ _ _ _ _ _ h₁
+  obtain ⟨l₂, _, _, _, rfl⟩ := lagrange_ok_form _ _ _ _ _ _ _ _ _ h₂
+  obtain ⟨l₃, _, _, _, rfl⟩ := lagrange_ok_form _ _ _ _ _ _ _ _ _ h₃
+  obtain ⟨Z, hZlen, s₁, s₂, s₃, hZ⟩ := sorted_triples xs r₁ r₂ r₃ srt l₁ l₂ l₃
+  have getD_map : ∀ (f : ℚ → List ℚ), (xnew.map f).getD j [] = f (xnew.getD j 0) := by
+    intro f; simp [List.getD_eq_getElem?_getD, hj]
+  rw [getD_map, getD_map, getD_map, s₁, s₂, s₃]
+  simp only [List.map_map, fst_comp_map]
+  apply lagrangeAt_linear _ _ _ _ dim w _ s _ a b c hc (by simpa [hZlen] using hwn) (by simp) (by simp) (by simp)
+  intro i hi
+  have hi' : i < Z.length := by simpa using hi
+  obtain ⟨t, ht, g₁, g₂, g₃⟩ := hZ i hi'
+  have hc' := hcomb t ht
+  rw [g₁, g₂, g₃] at hc'
+  simpa [List.getD_eq_getElem?_getD, hi'] using hc'
+
+
+/-! ### piecewise linear interpolation (`interp1d(kind="linear")`, modelled) -/
+
+theorem searchLeft_node : ∀ (xs : List ℚ) (k : ℕ), xs.Pairwise (· < ·) → k < xs.length →
+    searchLeft xs (xs.getD k 0) = k
+  | [], k, _, hk => by simp at hk
+  | a :: l, 0, hp, _ => by
+    have hp' := List.pairwise_cons.mp hp
+    simp only [searchLeft, List.getD_cons_zero]
+    rw [List.filter_eq_nil_iff.mpr]
+    · rfl
+    · intro b hb
+      rcases List.mem_cons.mp hb with rfl | hb
+      · simp
+      · simpa using le_of_lt (hp'.1 b hb)
+  | a :: l, k + 1, hp, hk => by
+    have hp' := List.pairwise_cons.mp hp
+    have hk' : k < l.length := by simpa using hk
+    have ih := searchLeft_node l k hp'.2 hk'
+    have hmem : l.getD k 0 ∈ l := by
+      rw [List.getD_eq_getElem?_getD, List.getElem?_eq_getElem hk']
+      exact List.getElem_mem hk'
+    have hlt := hp'.1 _ hmem
+    simp only [searchLeft, List.getD_cons_succ] at ih ⊢
+    rw [List.filter_cons_of_pos (by simpa using hlt), List.length_cons, ih]
+
+theorem getD_mem_lt (xs : List ℚ) (hp : xs.Pairwise (· < ·)) (i j : ℕ) (hij : i < j) (hj : j < xs.length) :
+    xs.getD i 0 < xs.getD j 0 := by
+  have hi : i < xs.length := by omega
+  rw [List.getD_eq_getElem?_getD, List.getD_eq_getElem?_getD, List.getElem?_eq_getElem hi,
+    List.getElem?_eq_getElem hj]
+  exact List.pairwise_iff_getElem.mp hp i j hi hj hij
+
+/-- the piecewise linear interpolant reproduces the data at the nodes -/
+theorem linearAt_node (xs : List ℚ) (rows : List (List ℚ)) (dim k : ℕ) (hp : xs.Pairwise (· < ·))
+    (hn : 2 ≤ xs.length) (hk : k < xs.length) :
+    linearAt xs rows dim (xs.getD k 0) = (List.range dim).map (fun c => (rows.getD k []).getD c 0) := by
+  unfold linearAt
+  rw [searchLeft_node xs k hp hk]
+  apply List.map_congr_left
+  intro c _
+  rcases Nat.eq_zero_or_pos k with rfl | hk0
+  · have : max 1 (min 0 (xs.length - 1)) = 1 := by omega
+    simp only [this, Nat.sub_self]
+    ring
+  · have : max 1 (min k (xs.length - 1)) = k := by omega
+    simp only [this]
+    have hlt := getD_mem_lt xs hp (k - 1) k (by omega) hk
+    have hne : xs.getD k 0 - xs.getD (k - 1) 0 ≠ 0 := by linarith [hlt]
+    field_simp
+    ring
+
+/-- … and is linear in the data -/
+theorem linearAt_linear (xs : List ℚ) (r₁ r₂ r₃ : List (List ℚ)) (dim : ℕ) (x a b : ℚ) (c : ℕ) (hc : c < dim)
+    (hn : 2 ≤ xs.length)
+    (hcomb : ∀ i, i < xs.length →
+      (r₃.getD i []).getD c 0 = a * (r₁.getD i []).getD c 0 + b * (r₂.getD i []).getD c 0) :
+    (linearAt xs r₃ dim x).getD c 0 = a * (linearAt xs r₁ dim x).getD c 0 + b * (linearAt xs r₂ dim x).getD c 0 := by
+  unfold linearAt
+  simp only [List.getD_eq_getElem?_getD, List.getElem?_map, List.getElem?_range hc, Option.map_some, Option.getD_some]
+  simp only [← List.getD_eq_getElem?_getD]
+  have h1 : max 1 (min (searchLeft xs x) (xs.length - 1)) < xs.length := by omega
+  have h0 : max 1 (min (searchLeft xs x) (xs.length - 1)) - 1 < xs.length := by omega
+  rw [hcomb _ h1, hcomb _ h0]
+  ring
+
+theorem linear_ok_form (xs : List ℚ) (rows : List (List ℚ)) (dim : ℕ) (xnew : List ℚ) (out : List (List ℚ))
+    (h : linear xs rows dim xnew = .ok out) :
+    rows.length = xs.length ∧ 2 ≤ xs.length ∧
+    out = xnew.map (fun x => linearAt ((sortedPairs xs rows false).map (·.1)) ((sortedPairs xs rows false).map (·.2)) dim x) := by
+  simp only [linear, sortedPairs, Bool.false_eq_true, ↓reduceIte] at h ⊢
+  split at h
+  · exact absurd h (by simp)
+  rename_i h1
+  split at h
+  · exact absurd h (by simp)
+  rename_i h2
+  split at h
+  · exact absurd h (by simp)
+  split at h
+  · exact absurd h (by simp)
+  refine ⟨by simpa using h1, by omega, ?_⟩
+  injection h with h
+  exact h.symm
+
+/-- **node reproduction** for `kind="linear"`, whole call (distinct abscissae) -/
+theorem linear_nodes (xs : List ℚ) (rows : List (List ℚ)) (dim : ℕ) (xnew : List ℚ) (out : List (List ℚ))
+    (h : linear xs rows dim xnew = .ok out)
+    (hdist : strictInc ((sortBy (xs.zip rows)).map (·.1)) = true)
+    (i j : ℕ) (hi : i < xs.length) (hj : j < xnew.length) (hx : xnew.getD j 0 = xs.getD i 0) :
+    out.getD j [] = (List.range dim).map (fun c => (rows.getD i []).getD c 0) := by
+  obtain ⟨hl, hn, rfl⟩ := linear_ok_form _ _ _ _ _ h
+  obtain ⟨k, hk, hk1, hk2⟩ := sortedPairs_index xs rows false hl i hi
+  have hlen := sortedPairs_length xs rows false hl
+  have hinc : strictInc ((sortedPairs xs rows false).map (·.1)) = true := by simpa [sortedPairs] using hdist
+  have e : (xnew.map (fun x => linearAt ((sortedPairs xs rows false).map (·.1))
+      ((sortedPairs xs rows false).map (·.2)) dim x)).getD j []
+      = linearAt ((sortedPairs xs rows false).map (·.1)) ((sortedPairs xs rows false).map (·.2)) dim (xnew.getD j 0) := by
+    simp [List.getD_eq_getElem?_getD, hj]
+  rw [e, hx, ← hk1, linearAt_node _ _ _ k (strictInc_pairwise _ hinc) (by simpa [hlen] using hn) (by simpa using hk), hk2]
+
+/-- **invariance under reordering of the samples** for `kind="linear"` -/
+theorem linear_perm (xs xs' : List ℚ) (rows rows' : List (List ℚ)) (dim : ℕ) (xnew : List ℚ)
+    (hl : rows.length = xs.length) (hl' : rows'.length = xs'.length)
+    (hperm : (xs.zip rows).Perm (xs'.zip rows'))
+    (hdist : strictInc ((sortBy (xs.zip rows)).map (·.1)) = true) :
+    linear xs' rows' dim xnew = linear xs rows dim xnew := by
+  have hlen : xs'.length = xs.length := by
+    have := hperm.length_eq
+    simp [List.length_zip, hl, hl'] at this
+    omega
+  have hsort := sortBy_eq_of_perm _ _ hperm hdist
+  simp only [linear, hl, hl', hlen, hsort]
+
+
+/-- **linear in the data** for `kind="linear"`, whole call -/
+theorem linear_linear (xs : List ℚ) (r₁ r₂ r₃ : List (List ℚ)) (dim : ℕ) (xnew : List ℚ) (a b : ℚ)
+    (o₁ o₂ o₃ : List (List ℚ))
+    (h₁ : linear xs r₁ dim xnew = .ok o₁) (h₂ : linear xs r₂ dim xnew = .ok o₂) (h₃ : linear xs r₃ dim xnew = .ok o₃)
+    (c : ℕ) (hc : c < dim)
+    (hcomb : ∀ i, i < xs.length →
+      (r₃.getD i []).getD c 0 = a * (r₁.getD i []).getD c 0 + b * (r₂.getD i []).getD c 0)
+    (j : ℕ) (hj : j < xnew.length) :
+    (o₃.getD j []).getD c 0 = a * (o₁.getD j []).getD c 0 + b * (o₂.getD j []).getD c 0 := by
+  obtain ⟨l₁, hn, rfl⟩ := linear_ok_form _ _ _ _ _ h₁
+  obtain ⟨l₂, _, rfl⟩ := linear_ok_form _ _ _ _ _ h₂
+  obtain ⟨l₃, _, rfl⟩ := linear_ok_form _ _ _ _ _ h₃
+  obtain ⟨Z, hZlen, s₁, s₂, s₃, hZ⟩ := sorted_triples xs r₁ r₂ r₃ false l₁ l₂ l₃
+  have getD_map : ∀ (f : ℚ → List ℚ), (xnew.map f).getD j [] = f (xnew.getD j 0) := by
+    intro f; simp [List.getD_eq_getElem?_getD, hj]
+  rw [getD_map, getD_map, getD_map, s₁, s₂, s₃]
+  simp only [List.map_map, fst_comp_map]
+  apply linearAt_linear _ _ _ _ dim _ a b c hc (by simpa [hZlen] using hn)
+  intro i hi
+  have hi' : i < Z.length := by simpa using hi
+  obtain ⟨t, ht, g₁, g₂, g₃⟩ := hZ i hi'
+  have hc' := hcomb t ht
+  rw [g₁, g₂, g₃] at hc'
+  simpa [List.getD_eq_getElem?_getD, hi'] using hc'
+
 end Midgard.Proofs.C20
